@@ -114,5 +114,7 @@ theorem C14_body_YieldFromIO : Gen.c15BodyOf "CorDef.YieldFromIO" = some "{ var 
 theorem C14_body_New : Gen.c15BodyOf "CorNewGenerics" = some "{ cor := &CorDef[T]{ effect: effect, opCh: make(chan *CorOp[T], 5), resultCh: make(chan T, 5), doneCh: make(chan struct{}), isStarted: AtomBool{flag: 0}, } return cor }" := by decide +kernel
 theorem C14_body_IsDone : Gen.c15BodyOf "CorDef.IsDone" = some "{ return self.isClosed.Get() }" := by decide +kernel
 theorem C14_body_IsStarted : Gen.c15BodyOf "CorDef.IsStarted" = some "{ return self.isStarted.Get() }" := by decide +kernel
+theorem C14_body_doCloseSafe : Gen.c15BodyOf "CorDef.doCloseSafe" = some "{ self.closedM.Lock() defer self.closedM.Unlock() if self.IsDone() { return } fn() }" := by decide +kernel
+theorem C14_body_close : Gen.c15BodyOf "CorDef.close" = some "{ self.isClosed.Set(true) if self.doneCh != nil { close(self.doneCh) } self.closedM.Lock() if self.resultCh != nil { close(self.resultCh) } if self.opCh != nil { close(self.opCh) } self.closedM.Unlock() if self.opCh != nil { for op := range self.opCh { if op != nil && op.cor != nil { cor := op.cor cor.doCloseSafe(func() { var zero T cor.resultCh <- zero }) } } } }" := by decide +kernel
 
 end FpgoVerif.C14
